@@ -3,5 +3,6 @@ NEXT Next
 INVARIANT Inv
 CHECK_DEADLOCK FALSE
 CONSTANTS
-  Mode = "probe"
-  Big = TRUE
+  MaxLen = 1
+  FullLen = 1
+  MaxLists = 2
